@@ -3,6 +3,32 @@
 use cglue::*;
 use instr::DcHeap;
 
+thread_local! {
+    static SEQ: std::cell::Cell<u64> = const { std::cell::Cell::new(0) };
+    /// sequence number of the most recent payload (instance) destruction
+    pub static LAST_PAYLOAD_DROP: std::cell::Cell<u64> = const { std::cell::Cell::new(0) };
+}
+pub fn next_seq() -> u64 {
+    SEQ.with(|s| {
+        s.set(s.get() + 1);
+        s.get()
+    })
+}
+fn note_payload_drop() {
+    let n = next_seq();
+    let _ = LAST_PAYLOAD_DROP.try_with(|c| c.set(n));
+}
+impl Drop for LeafImp {
+    fn drop(&mut self) {
+        note_payload_drop();
+    }
+}
+impl Drop for NodeImp {
+    fn drop(&mut self) {
+        note_payload_drop();
+    }
+}
+
 #[cglue_trait]
 pub trait Leaf {
     fn val(&self) -> u64;
@@ -78,6 +104,12 @@ pub trait Node {
     fn child_group_ref(&self) -> &Self::BorrowedG;
     fn consume(self) -> u64;
     fn consume_into(self) -> Self::Owned;
+    /// Ok(child) when `made` (number of children handed out so far) is even, Err otherwise
+    #[allow(clippy::result_unit_err)]
+    fn consume_try(self) -> Result<Self::Owned, ()>;
+    #[int_result]
+    #[allow(clippy::result_unit_err)]
+    fn consume_try_int(self) -> Result<Self::Owned, ()>;
 }
 
 pub struct NodeImp {
@@ -123,7 +155,17 @@ impl Node for NodeImp {
     fn consume(self) -> u64 {
         self.dc.val() + 5
     }
-    fn consume_into(self) -> LeafImp {
-        self.kid
+    fn consume_into(mut self) -> LeafImp {
+        std::mem::replace(&mut self.kid, LeafImp::new(0))
+    }
+    fn consume_try(mut self) -> Result<LeafImp, ()> {
+        if self.made.get() % 2 == 0 {
+            Ok(std::mem::replace(&mut self.kid, LeafImp::new(0)))
+        } else {
+            Err(())
+        }
+    }
+    fn consume_try_int(self) -> Result<LeafImp, ()> {
+        self.consume_try()
     }
 }
